@@ -31,16 +31,18 @@ type c18ReLoop struct {
 }
 
 type c18ReObs struct {
-	Attempts     []int       `json:"attempts"`                // 0 established, 1 connect failed, 2 hook failed (Resume returned its error)
-	Loops        []c18ReLoop `json:"loops"`                   // keep-alive loops seen, in order of their first call
-	Sessions     int         `json:"sessions"`                // sessions established (Connect / Resume returned nil)
-	LostLast     bool        `json:"lost_last,omitempty"`     // the last session was reported lost before the harness ended it
-	LastSrvN     int         `json:"last_srvn"`               // keep-alive bytes on the last session's connection
-	LastUpUs     int64       `json:"last_up_us"`              // how long the last session was up
-	OpenFailed   []int       `json:"open_failed,omitempty"`   // server connections of failed attempts the client never closed
-	GateMissed   bool        `json:"gate_missed,omitempty"`   // late variants: the loop could not be stopped where intended
-	FailedStates []int       `json:"failed_states,omitempty"` // client state right after each attempt whose hook failed
-	LateClose    bool        `json:"late_close,omitempty"`    // latefail: the loop answered its failed late ping with Close
+	Attempts     []int         `json:"attempts"`                // 0 established, 1 connect failed, 2 hook failed (Resume returned its error)
+	Loops        []c18ReLoop   `json:"loops"`                   // keep-alive loops seen, in order of their first call
+	Sessions     int           `json:"sessions"`                // sessions established (Connect / Resume returned nil)
+	LostLast     bool          `json:"lost_last,omitempty"`     // the last session was reported lost before the harness ended it
+	LastSrvN     int           `json:"last_srvn"`               // keep-alive bytes on the last session's connection
+	LastUpUs     int64         `json:"last_up_us"`              // how long the last session was up
+	OpenFailed   []int         `json:"open_failed,omitempty"`   // server connections of failed attempts the client never closed
+	GateMissed   bool          `json:"gate_missed,omitempty"`   // late variants: the loop could not be stopped where intended
+	FailedStates []int         `json:"failed_states,omitempty"` // client state right after each attempt whose hook failed
+	LateClose    bool          `json:"late_close,omitempty"`    // latefail: the loop answered its failed late ping with Close
+	Ends         []int         `json:"ends,omitempty"`          // hist: how each established session ended (k_end of the model)
+	Hist         []c18HistSess `json:"hist,omitempty"`          // hist: per session of the history
 }
 
 func kaSessionTail(clear []byte) []byte {
@@ -59,6 +61,9 @@ func kaSessionTail(clear []byte) []byte {
 }
 
 func runKeepaliveRe(in *c18In, attempt int) (Sx, *c18Obs) {
+	if in.Variant == "hist" {
+		return runKeepaliveHist(in, attempt)
+	}
 	iv := time.Duration(in.IvUs) * time.Microsecond
 	setupErr := func(msg string) (Sx, *c18Obs) {
 		return L(L(L(Z(-2), SBytes(msg))), L(), L()), &c18Obs{Attempts: attempt, SetupErr: msg, CloseUs: -1, ReturnUs: -1, Re: &c18ReObs{}}
@@ -573,6 +578,12 @@ func reInputSx(in *c18In, o *c18Obs) Sx {
 			case in.Variant == "serrmgr":
 				end = 4 // stream error; the handler reconnected, the loop returns without a Disconnected event
 			}
+			if in.Variant == "hist" {
+				end = 1
+				if k < len(ro.Ends) {
+					end = ro.Ends[k] // every session of a history ends in its own way
+				}
+			}
 			k++
 		}
 		term, failAt, lateFlag := 0, 0, 0
@@ -587,6 +598,9 @@ func reInputSx(in *c18In, o *c18Obs) Sx {
 			// the model is TOLD so, and decides by itself that no Close follows
 			lateFlag = 2
 		}
+		if a == 0 && in.Variant == "hist" && !lp.Failed && lp.Late == 1 && lp.LateOk == 1 && end != 0 && k-1 < len(in.Hist) && strings.HasPrefix(in.Hist[k-1].End, "disc") {
+			lateFlag = 2 // the one ping that was past its poll of quit when the application called Disconnect: observed
+		}
 		inp := L(Zi(in.IvUs), Zi(term), Zi(failAt), Zi(lp.NSucc), LS(suf), Z(1), B(true), Zi(lp.SrvN), L(), Zi(end), B(true), Zi(lateFlag))
 		atts = append(atts, L(Zi(a), inp))
 	}
@@ -594,6 +608,9 @@ func reInputSx(in *c18In, o *c18Obs) Sx {
 }
 
 func reOracle(in *c18In, obs Sx) (string, string) {
+	if in.Variant == "hist" {
+		return histOracle(in, obs)
+	}
 	o := in.Obs
 	if o == nil || o.Re == nil {
 		return "no observation: " + obs.String(), "shape"
